@@ -358,6 +358,9 @@ func DecodeBoxLazyMdat(startPos uint64, r io.ReadSeeker) (Box, error) {
 	} else {
 		switch h.Name {
 		case "mdat":
+			if remainingLength < 0 {
+				return nil, fmt.Errorf("decode box %q: size %d too big", h.Name, h.Size)
+			}
 			b, err = DecodeMdatLazily(h, startPos)
 			if err == nil {
 				_, err = r.Seek(remainingLength, io.SeekCurrent)
